@@ -328,3 +328,6 @@ type Watcher struct {
 
 // ClosedFlag is implemented by *Chan[T].
 type ClosedFlag interface{ IsClosed() bool }
+
+// MarkDone flags a channel as a context's Done channel (see Exec.DonePriority).
+func MarkDone[T any](c *Chan[T]) { c.core.isDone = true }
